@@ -54,9 +54,25 @@ Theorem SRC_writer_invariant :
   (forall g, gw_inv g -> g_lst g <> PartialIndent -> gw_inv (fst (g_IndentWriter_close_item g))).
 Proof. repeat split. apply gw_inv_new. apply gw_inv_open_item. apply gw_inv_close_item. Qed.
 
+(* The driver of the printer (fmt of DebugPrettyPrint + prepare_next_node_printing, pinned verbatim in
+   props/INVdebug_pretty_print.v) restated by hand over the REGENERATED writer functions computes exactly the model's
+   pretty_print — so C14_print speaks about the regenerated state machine: *)
+Theorem SRC_pretty_print : forall dbg rend mode x a,
+  g_pretty_print dbg rend mode x a = (a, pretty_print dbg rend mode x a).
+Proof. exact src_pretty_print. Qed.
+
+From IT.proofs Require Import PrinterProofs.
+From IT Require Import Spec.
+Corollary SRC_C14_on_the_regenerated_machine : forall dbg a t rend mode pay,
+  tree_in a t -> payloads_ok a rend mode pay t ->
+  g_pretty_print dbg rend mode (root t) a = (a, Ok (render rend mode pay t)).
+Proof. intros. rewrite src_pretty_print. f_equal. apply pretty_print_render; assumption. Qed.
+
 Print Assumptions SRC_indent_strings.
 Print Assumptions SRC_indent_writer_items.
 Print Assumptions SRC_complete_partial_indent.
 Print Assumptions SRC_write_str.
 Print Assumptions SRC_writer_invariant.
 Print Assumptions SRC_write_chunks.
+Print Assumptions SRC_pretty_print.
+Print Assumptions SRC_C14_on_the_regenerated_machine.
